@@ -111,7 +111,27 @@ def style_gates():
                 elif nxt in CMP: op = FLIP[nxt]                 # StyleEdition::EditionN OP value
                 site = "%s:%d `%s StyleEdition::Edition%d`" % (rel, line, op or "?", year)
                 if op is None:
-                    undecided.append(site + " (boundary constant used outside a comparison: %s _ %s)" % (prev, nxt))
+                    # pattern position: an or-pattern `StyleEdition::A | StyleEdition::B ... =>` (or `if` guard after it).  The arm selects a set of
+                    # editions: it must contain none or all of 2015/2018/2021.
+                    j = k
+                    while j - 4 >= 0 and texts[j - 1] == "|" and texts[j - 4] == "StyleEdition" and texts[j - 3] == "::": j -= 4
+                    if j != k: continue                      # not the first alternative of its group: the group is judged at its first one
+                    years, q = [], k
+                    while q + 2 < len(texts) and texts[q] == "StyleEdition" and texts[q + 1] == "::" and texts[q + 2].startswith("Edition"):
+                        years.append(int(texts[q + 2][len("Edition"):])); q += 3
+                        if q < len(texts) and texts[q] == "|": q += 1
+                        else: break
+                    after = texts[q] if q < len(texts) else ""
+                    before = texts[k - 1] if k > 0 else ""
+                    if after in ("=>", "if") and before in ("{", ",", "|", "}", "(") or (after in ("=>", "if") and before == "=>"):
+                        old_in = sorted(y for y in years if y in OLD)
+                        psite = "%s:%d match arm `%s`" % (rel, line, " | ".join("Edition%d" % y for y in years))
+                        sites.append(psite)
+                        if old_in and old_in != OLD:
+                            failed.append({"obligation": "frame scan style_gates: a match arm on the style edition selects none or all of 2015/2018/2021", "function": rel, "kind": "frame scan hit",
+                                           "input": psite, "detail": "the arm selects %s of the three old style editions: they would format differently" % old_in})
+                        continue
+                    undecided.append(site + " (boundary constant used outside a comparison or match arm: %s _ %s)" % (prev, nxt))
                     continue
                 truth = [CMP[op](e, year) for e in OLD]
                 sites.append(site)
